@@ -9,11 +9,17 @@ use std::sync::Arc;
 /// n interchangeable processes, each a counter 0..=2; any process below `cap` may step, and a
 /// process at 1 may also reset a peer that is at 2 (so the graph has joins and cycles).
 #[derive(Clone)]
-struct Sym { n: usize, cap: u8, bad: (u8, u8), want: u8 }
+struct Sym { n: usize, cap: u8, bad: (u8, u8), want: u8, inits: u8 }
 impl Model for Sym {
     type State = Vec<u8>;
     type Action = (u8, usize, usize);
-    fn init_states(&self) -> Vec<Vec<u8>> { vec![vec![0; self.n]] }
+    fn init_states(&self) -> Vec<Vec<u8>> {
+        // inits 0: the all-zero state. 1/2: two mirror-image init states of which only one is its own
+        // representative, in both listing orders (the path of a discovery must start at the ORIGINAL init state).
+        let mut lo = vec![0; self.n]; lo[self.n - 1] = 1;
+        let mut hi = vec![0; self.n]; hi[0] = 1;
+        match self.inits { 0 => vec![vec![0; self.n]], 1 => vec![lo, hi], 2 => vec![hi, lo], _ => vec![hi] }
+    }
     fn actions(&self, s: &Vec<u8>, a: &mut Vec<Self::Action>) {
         for i in 0..self.n {
             if s[i] < self.cap { a.push((0, i, 0)); }
@@ -47,10 +53,11 @@ pub fn run(ctx: &mut Ctx) {
     for n in 2..=3usize {
         for cap in 1..=2u8 {
             for bad in [(2u8, 1u8), (2, 2), (1, 2), (2, 3), (3, 1)] {
-                for want in [0u8, 1, 2] {
-                    let case = format!("sym:n={} cap={} bad={:?} want={}", n, cap, bad, want);
+                for (want, inits) in [(0u8, 0u8), (1, 0), (2, 0), (1, 1), (2, 1), (1, 2), (2, 2), (2, 3), (1, 3)] {
+                    let case = if inits == 0 { format!("sym:n={} cap={} bad={:?} want={}", n, cap, bad, want) } else { format!("sym:n={} cap={} bad={:?} want={} inits={}", n, cap, bad, want, inits) };
                     if !ctx.want(&case) { continue; }
-                    let m = Sym { n, cap, bad, want };
+                    let m = Sym { n, cap, bad, want, inits };
+                    let r = std::panic::catch_unwind(std::panic::AssertUnwindSafe(|| {
                     let plain = m.clone().checker().spawn_dfs().join();
                     let red = m.clone().checker().symmetry_fn(rep).spawn_dfs().join();
                     let dp: BTreeSet<&str> = plain.discoveries().keys().copied().collect();
@@ -60,7 +67,7 @@ pub fn run(ctx: &mut Ctx) {
                     for (name, path) in red.discoveries() {
                         let states = path.clone().into_states();
                         let acts = path.into_actions();
-                        paths_ok &= states[0] == vec![0u8; n];
+                        paths_ok &= m.init_states().contains(&states[0]);
                         for (k, a) in acts.iter().enumerate() {
                             let mut av = vec![]; m.actions(&states[k], &mut av);
                             paths_ok &= av.contains(a) && m.next_state(&states[k], *a) == Some(states[k + 1].clone());
@@ -75,8 +82,10 @@ pub fn run(ctx: &mut Ctx) {
                     let _ = full;
                     let classes_lower = red.unique_state_count() >= 1;
                     let ok = dp == dr && paths_ok && red.unique_state_count() <= plain.unique_state_count() && classes_lower;
-                    ctx.check(&case, "symmetry-verdict-or-path", &["DFS.check_block.ensures.symmetry-pushes-original"], ok,
-                        format!("plain={:?}/{} reduced={:?}/{} paths_real={}", dp, plain.unique_state_count(), dr, red.unique_state_count(), paths_ok),
+                    (ok, format!("plain={:?}/{} reduced={:?}/{} paths_real={}", dp, plain.unique_state_count(), dr, red.unique_state_count(), paths_ok))
+                    }));
+                    let (ok, got) = r.unwrap_or_else(|e| (false, format!("panicked: {}", e.downcast_ref::<String>().cloned().or(e.downcast_ref::<&str>().map(|s| s.to_string())).unwrap_or_default())));
+                    ctx.check(&case, "symmetry-verdict-or-path", &["DFS.check_block.ensures.symmetry-pushes-original"], ok, got,
                         "same verdicts, real paths, no more states than unreduced".into());
                 }
             }
